@@ -5,6 +5,8 @@
 HARNESSES = {
     "c08": {"src": ["harness/c08_main.cc", "harness/c08_poly.cc", "harness/c08_shapes.cc", "harness/c08_grid.cc", "harness/c08_pps.cc"],
             "variant": "prod", "flags": NOAC},
+    # thorough tier only: BD_Shape<double> and Octagonal_Shape<int8_t>
+    "c08_fp": {"src": ["harness/c08_shapes_fp.cc"], "variant": "prod", "flags": NOAC},
 }
 
 def _runs(tier):
@@ -22,6 +24,7 @@ def _runs(tier):
         {"harness": "c08", "args": ["--explorer", "poly", "--topology", "C"], "budget": 2400},
         {"harness": "c08", "args": ["--explorer", "pps"], "budget": 2400},
         {"harness": "c08", "args": ["--explorer", "grid"], "budget": 2400},
+        {"harness": "c08_fp", "args": ["--domains", "dbl,i8", "--menu", "12"], "budget": 2400},
     ]
 
 CHECKS = {
